@@ -401,6 +401,13 @@ int vh_cal(void)
 	res(e >= 0, e);
 	return 0;
     }
+    if (strcmp(op, "get_filename") == 0) {	/* get_filename c */
+	const char *name;
+	LIB(name = vnacal_get_filename(cal[c]));
+	vh_out("ok ");
+	if (name == NULL) vh_out("null"); else vh_out_hexbytes(name);
+	return 0;
+    }
     if (strcmp(op, "get_info") == 0) {
 	int ci = (int)tl();
 	const char *name;
